@@ -40,5 +40,11 @@ def run(chk, ix, tier):
     rules_config.check_loglevel_names(chk, ix)
     rules_config.check_typed_getters_concrete(chk, ix)
     rules_config.check_command_args_unchanged(chk, ix)
-    for r, n in (("Z1", 1), ("Z2", 6), ("Z4", 16), ("Z5", 4), ("Z6", 3), ("Z7", 2), ("Z9", 14), ("Z8", 10), ("Z10", 1), ("Z11", 1), ("Z12", 11), ("Z13", 6)):
+    rules_config.check_setup_userdata(chk, ix)
+    rules_config.check_runner_aliases(chk, ix)
+    # every Configuration reads its files anew (a file may be edited between two runs of one process): the readers keep no memo
+    from .. import rules_generic
+    rules_generic.check_memoryless(chk, ix, ["behave.configuration:read_configuration", "behave.configuration:load_configuration",
+                                             "behave.configuration:config_filenames"])
+    for r, n in (("Z1", 1), ("Z2", 6), ("Z4", 16), ("Z5", 4), ("Z6", 3), ("Z7", 2), ("Z9", 14), ("Z8", 10), ("Z10", 1), ("Z11", 1), ("Z12", 11), ("Z13", 6), ("Z14", 2), ("Z15", 3)):
         chk.require_instances(r, n)
